@@ -11,7 +11,7 @@ theorem little_chunk (x1 x2 x3 : Nat) (h1 : x1 < 256) (h2 : x2 < 256) :
      | [a,b,c,d] => decLittleChunk a b c d
      | _ => []) = [x1,x2,x3] := by
   simp only [encLittleChunk, decLittleChunk]
-  simp (disch := omega) only [and63, and15, and3, Nat.shiftRight_eq_div_pow, Nat.shiftLeft_eq, mul_or, or_mul, List.cons.injEq, and_true]
+  bitsimp
   refine ⟨?_, ?_, ?_⟩ <;> omega
 
 theorem big_chunk (x1 x2 x3 : Nat) (h2 : x2 < 256) (h3 : x3 < 256) :
@@ -19,31 +19,31 @@ theorem big_chunk (x1 x2 x3 : Nat) (h2 : x2 < 256) (h3 : x3 < 256) :
      | [a,b,c,d] => decBigChunk a b c d
      | _ => []) = [x1,x2,x3] := by
   simp only [encBigChunk, decBigChunk]
-  simp (disch := omega) only [and63, and15, and3, Nat.shiftRight_eq_div_pow, Nat.shiftLeft_eq, mul_or, or_mul, List.cons.injEq, and_true]
+  bitsimp
   refine ⟨?_, ?_, ?_⟩ <;> omega
 
 theorem little_tail1 (x1 : Nat) (h1 : x1 < 256) :
     (match encLittleTail1 x1 with | [a,b] => decLittleTail2 a b | _ => []) = [x1] := by
   simp only [encLittleTail1, decLittleTail2]
-  simp (disch := omega) only [and63, and15, and3, Nat.shiftRight_eq_div_pow, Nat.shiftLeft_eq, mul_or, or_mul, List.cons.injEq, and_true]
+  bitsimp
   omega
 
 theorem big_tail1 (x1 : Nat) (h1 : x1 < 256) :
     (match encBigTail1 x1 with | [a,b] => decBigTail2 a b | _ => []) = [x1] := by
   simp only [encBigTail1, decBigTail2]
-  simp (disch := omega) only [and63, and15, and3, Nat.shiftRight_eq_div_pow, Nat.shiftLeft_eq, mul_or, or_mul, List.cons.injEq, and_true]
+  bitsimp
   omega
 
 theorem little_tail2 (x1 x2 : Nat) (h1 : x1 < 256) (h2 : x2 < 256) :
     (match encLittleTail2 x1 x2 with | [a,b,c] => decLittleTail3 a b c | _ => []) = [x1,x2] := by
   simp only [encLittleTail2, decLittleTail3]
-  simp (disch := omega) only [and63, and15, and3, Nat.shiftRight_eq_div_pow, Nat.shiftLeft_eq, mul_or, or_mul, List.cons.injEq, and_true]
+  bitsimp
   refine ⟨?_, ?_⟩ <;> omega
 
 theorem big_tail2 (x1 x2 : Nat) (h1 : x1 < 256) (h2 : x2 < 256) :
     (match encBigTail2 x1 x2 with | [a,b,c] => decBigTail3 a b c | _ => []) = [x1,x2] := by
   simp only [encBigTail2, decBigTail3]
-  simp (disch := omega) only [and63, and15, and3, Nat.shiftRight_eq_div_pow, Nat.shiftLeft_eq, mul_or, or_mul, List.cons.injEq, and_true]
+  bitsimp
   refine ⟨?_, ?_⟩ <;> omega
 
 /-! ### the recursion -/
@@ -90,13 +90,13 @@ theorem enc6_lt64 (big : Bool) : ∀ bs : Bytes, Bytes.WF bs → ∀ v ∈ enc6 
     have h1 : x1 < 256 := h x1 (by simp)
     cases big <;> simp only [enc6, encLittleTail1, encBigTail1, Bool.false_eq_true, if_false, if_true,
       List.mem_cons, List.not_mem_nil, or_false] <;> intro v hv <;> rcases hv with hv | hv <;> subst hv <;>
-      simp (disch := omega) only [and63, and3, Nat.shiftRight_eq_div_pow, Nat.shiftLeft_eq] <;> omega
+      bitsimp <;> omega
   | [x1, x2], h => by
     have h1 : x1 < 256 := h x1 (by simp)
     have h2 : x2 < 256 := h x2 (by simp)
     cases big <;> simp only [enc6, encLittleTail2, encBigTail2, Bool.false_eq_true, if_false, if_true,
       List.mem_cons, List.not_mem_nil, or_false] <;> intro v hv <;> rcases hv with hv | hv | hv <;> subst hv <;>
-      simp (disch := omega) only [and63, and15, and3, Nat.shiftRight_eq_div_pow, Nat.shiftLeft_eq, mul_or, or_mul] <;> omega
+      bitsimp <;> omega
   | x1 :: x2 :: x3 :: rest, h => by
     have h1 : x1 < 256 := h x1 (by simp)
     have h2 : x2 < 256 := h x2 (by simp)
@@ -107,6 +107,283 @@ theorem enc6_lt64 (big : Bool) : ∀ bs : Bytes, Bytes.WF bs → ∀ v ∈ enc6 
       List.cons_append, List.nil_append, List.mem_cons] at hv <;>
       rcases hv with hv | hv | hv | hv | hv <;> first
         | exact ih v hv
-        | (subst hv; simp (disch := omega) only [and63, and15, and3, Nat.shiftRight_eq_div_pow, Nat.shiftLeft_eq, mul_or, or_mul] <;> omega)
+        | (subst hv; bitsimp <;> omega)
+
+end Lemmas.B64
+
+namespace Lemmas.B64
+open Py Gen.B64 Model.B64 Bits Spec.Rfc4648
+
+/-! ### agreement with the RFC 4648 transcription -/
+
+theorem enc6_big_eq_rfc : ∀ bs : Bytes, Bytes.WF bs → enc6 true bs = groups64 bs
+  | [], _ => by simp [enc6, groups64]
+  | [x1], h => by
+    have h1 : x1 < 256 := h x1 (by simp)
+    simp only [enc6, groups64, if_true, encBigTail1]
+    bitsimp
+    refine ⟨?_, ?_⟩ <;> omega
+  | [x1, x2], h => by
+    have h1 : x1 < 256 := h x1 (by simp)
+    have h2 : x2 < 256 := h x2 (by simp)
+    simp only [enc6, groups64, if_true, encBigTail2]
+    bitsimp
+    refine ⟨?_, ?_, ?_⟩ <;> omega
+  | x1 :: x2 :: x3 :: rest, h => by
+    have h1 : x1 < 256 := h x1 (by simp)
+    have h2 : x2 < 256 := h x2 (by simp)
+    have h3 : x3 < 256 := h x3 (by simp)
+    have ih := enc6_big_eq_rfc rest (fun b hb => h b (by simp [hb]))
+    simp only [enc6, groups64, if_true, encBigChunk, ih, List.cons_append, List.nil_append]
+    bitsimp
+    refine ⟨?_, ?_, ?_, ?_⟩ <;> omega
+
+theorem enc6_little_eq_crypt : ∀ bs : Bytes, Bytes.WF bs → enc6 false bs = groups64le bs
+  | [], _ => by simp [enc6, groups64le]
+  | [x1], h => by
+    have h1 : x1 < 256 := h x1 (by simp)
+    simp only [enc6, groups64le, Bool.false_eq_true, if_false, encLittleTail1]
+    bitsimp
+    omega
+  | [x1, x2], h => by
+    have h1 : x1 < 256 := h x1 (by simp)
+    have h2 : x2 < 256 := h x2 (by simp)
+    simp only [enc6, groups64le, Bool.false_eq_true, if_false, encLittleTail2]
+    bitsimp
+    refine ⟨?_, ?_, ?_⟩ <;> omega
+  | x1 :: x2 :: x3 :: rest, h => by
+    have h1 : x1 < 256 := h x1 (by simp)
+    have h2 : x2 < 256 := h x2 (by simp)
+    have h3 : x3 < 256 := h x3 (by simp)
+    have ih := enc6_little_eq_crypt rest (fun b hb => h b (by simp [hb]))
+    simp only [enc6, groups64le, Bool.false_eq_true, if_false, encLittleChunk, ih, List.cons_append, List.nil_append]
+    bitsimp
+    refine ⟨?_, ?_, ?_, ?_⟩ <;> omega
+
+/-- libpass' copies of the generators are the same functions -/
+theorem lpEnc6_eq (big : Bool) : ∀ bs : Bytes, lpEnc6 big bs = enc6 big bs
+  | [] => by simp [enc6, lpEnc6]
+  | [_] => by cases big <;> simp [enc6, lpEnc6, encLittleTail1, lpEncLittleTail1, encBigTail1, lpEncBigTail1]
+  | [_, _] => by cases big <;> simp [enc6, lpEnc6, encLittleTail2, lpEncLittleTail2, encBigTail2, lpEncBigTail2]
+  | x1 :: x2 :: x3 :: rest => by
+    have ih := lpEnc6_eq big rest
+    cases big <;> simp [enc6, lpEnc6, encLittleChunk, lpEncLittleChunk, encBigChunk, lpEncBigChunk, ih]
+
+/-! ### character maps -/
+
+/-- a charmap is usable: 64 entries and position lookup inverts indexing -/
+def CharmapOK (cm : List Nat) : Prop :=
+  cm.length = 64 ∧ ∀ i, i < 64 → decode64 cm (cm.getD i 0) = some i
+
+instance (cm : List Nat) : Decidable (CharmapOK cm) := by unfold CharmapOK; infer_instance
+
+theorem decodeAll_map_encode (cm : List Nat) (ok : CharmapOK cm) :
+    ∀ vs : List Nat, (∀ v ∈ vs, v < 64) → decodeAll cm (vs.map (encode64 cm)) = some vs
+  | [], _ => rfl
+  | v :: vs, h => by
+    have hv : v < 64 := h v (by simp)
+    have ih := decodeAll_map_encode cm ok vs (fun x hx => h x (by simp [hx]))
+    simp only [List.map, decodeAll, encode64, ok.2 v hv, ih]
+
+theorem decode_encode (e : Engine) (ok : CharmapOK e.charmap) (bs : Bytes) (h : Bytes.WF bs) :
+    decodeBytes e (encodeBytes e bs) = .ok bs := by
+  unfold decodeBytes encodeBytes
+  have hl : ((enc6 e.big bs).map (encode64 e.charmap)).length % 4 ≠ 1 := by
+    rw [List.length_map, enc6_length]; omega
+  rw [if_neg hl, decodeAll_map_encode e.charmap ok _ (enc6_lt64 e.big bs h)]
+  simp only [dec6_enc6 e.big bs h]
+
+theorem encode_alphabet (e : Engine) (ok : CharmapOK e.charmap) (bs : Bytes) (h : Bytes.WF bs) :
+    ∀ c ∈ encodeBytes e bs, c ∈ e.charmap := by
+  intro c hc
+  unfold encodeBytes at hc
+  rcases List.mem_map.1 hc with ⟨v, hv, rfl⟩
+  have hv64 := enc6_lt64 e.big bs h v hv
+  unfold encode64
+  have : v < e.charmap.length := by rw [ok.1]; exact hv64
+  simp only [List.getD, List.getElem?_eq_getElem this, Option.getD_some]
+  exact List.getElem_mem _
+
+theorem encode_length (e : Engine) (bs : Bytes) : (encodeBytes e bs).length = (4 * bs.length + 2) / 3 := by
+  unfold encodeBytes; rw [List.length_map, enc6_length]
+
+/-! ### error laws of decode -/
+
+theorem decode_len1mod4_error (e : Engine) (s : Bytes) (h : s.length % 4 = 1) :
+    decodeBytes e s = .error .valueError := by
+  unfold decodeBytes; rw [if_pos h]
+
+theorem decodeAll_none_of_foreign (cm : List Nat) : ∀ (s : Bytes) (c : Nat), c ∈ s → c ∉ cm → decodeAll cm s = none
+  | [], _, h, _ => by cases h
+  | x :: xs, c, h, hc => by
+    rcases List.mem_cons.1 h with rfl | h'
+    · have : decode64 cm c = none := by
+        unfold decode64
+        have : ¬ (cm.idxOf c < cm.length) := by
+          rw [List.idxOf_lt_length_iff]; exact hc
+        simp [this]
+      simp [decodeAll, this]
+    · have ih := decodeAll_none_of_foreign cm xs c h' hc
+      simp only [decodeAll, ih]
+      cases decode64 cm x <;> rfl
+
+theorem decode_bad_char_error (e : Engine) (s : Bytes) (c : Nat) (hc : c ∈ s) (hf : c ∉ e.charmap) :
+    decodeBytes e s = .error .valueError := by
+  unfold decodeBytes
+  split
+  · rfl
+  · rw [decodeAll_none_of_foreign e.charmap s c hc hf]
+
+end Lemmas.B64
+
+namespace Lemmas.B64
+open Py Gen.B64 Model.B64 Bits Spec.Rfc4648
+
+/-! ### padding bits: decoding ignores them; clearing them is idempotent -/
+
+/-- clear the unused bits of the final 6-bit value (mirrors the recursion of `dec6`) -/
+def clearPad (big : Bool) : List Nat → List Nat
+  | v1 :: v2 :: v3 :: v4 :: rest => v1 :: v2 :: v3 :: v4 :: clearPad big rest
+  | [v1, v2, v3] => [v1, v2, v3 &&& (63 - (if big then padinfo3BitsBig else padinfo3BitsLittle))]
+  | [v1, v2] => [v1, v2 &&& (63 - (if big then padinfo2BitsBig else padinfo2BitsLittle))]
+  | l => l
+
+theorem pad_facts : ∀ v, v < 64 →
+    ((v &&& (63 - padinfo2BitsLittle)) &&& 3 = v &&& 3) ∧
+    ((v &&& (63 - padinfo3BitsLittle)) &&& 15 = v &&& 15) ∧
+    ((v &&& (63 - padinfo2BitsBig)) >>> 4 = v >>> 4) ∧
+    ((v &&& (63 - padinfo3BitsBig)) >>> 2 = v >>> 2) ∧
+    ((v &&& (63 - padinfo2BitsLittle)) &&& padinfo2BitsLittle = 0) ∧
+    ((v &&& (63 - padinfo3BitsLittle)) &&& padinfo3BitsLittle = 0) ∧
+    ((v &&& (63 - padinfo2BitsBig)) &&& padinfo2BitsBig = 0) ∧
+    ((v &&& (63 - padinfo3BitsBig)) &&& padinfo3BitsBig = 0) := by decide
+
+theorem and48 : ∀ v, v < 64 → v &&& (63 - 15) = v / 2^4 * 2^4 := by decide
+theorem and60 : ∀ v, v < 64 → v &&& (63 - 3) = v / 2^2 * 2^2 := by decide
+
+/-- decoding does not look at the padding bits -/
+theorem dec6_clearPad (big : Bool) : ∀ vs : List Nat, (∀ v ∈ vs, v < 64) → dec6 big (clearPad big vs) = dec6 big vs
+  | [], _ => rfl
+  | [_], _ => rfl
+  | [v1, v2], h => by
+    have f := pad_facts v2 (h v2 (by simp))
+    cases big
+    · simp only [clearPad, dec6, decLittleTail2, Bool.false_eq_true, if_false, f.1]
+    · simp only [clearPad, dec6, decBigTail2, if_true, f.2.2.1]
+  | [v1, v2, v3], h => by
+    have f := pad_facts v3 (h v3 (by simp))
+    cases big
+    · simp only [clearPad, dec6, decLittleTail3, Bool.false_eq_true, if_false, f.2.1]
+    · simp only [clearPad, dec6, decBigTail3, if_true, f.2.2.2.1]
+  | v1 :: v2 :: v3 :: v4 :: rest, h => by
+    have ih := dec6_clearPad big rest (fun x hx => h x (by simp [hx]))
+    simp only [clearPad, dec6, ih]
+
+/-- clearing is idempotent -/
+theorem clearPad_idem (big : Bool) : ∀ vs : List Nat, clearPad big (clearPad big vs) = clearPad big vs
+  | [] => rfl
+  | [_] => rfl
+  | [v1, v2] => by
+    simp only [clearPad, List.cons.injEq, and_true, true_and, Nat.and_assoc, Nat.and_self]
+  | [v1, v2, v3] => by
+    simp only [clearPad, List.cons.injEq, and_true, true_and, Nat.and_assoc, Nat.and_self]
+  | v1 :: v2 :: v3 :: v4 :: rest => by
+    simp only [clearPad, clearPad_idem big rest]
+
+/-- the canonical (re-encoded) form of any decodable value list is its cleared form -/
+theorem enc6_dec6_eq_clearPad (big : Bool) : ∀ vs : List Nat, (∀ v ∈ vs, v < 64) → vs.length % 4 ≠ 1 →
+    enc6 big (dec6 big vs) = clearPad big vs
+  | [], _, _ => rfl
+  | [_], _, hl => by simp at hl
+  | [v1, v2], h, _ => by
+    have h1 := h v1 (by simp); have h2 := h v2 (by simp)
+    cases big
+    · simp only [dec6, decLittleTail2, Bool.false_eq_true, if_false, enc6, encLittleTail1, clearPad, padinfo2BitsLittle]
+      bitsimp
+      refine ⟨?_, ?_⟩
+      · omega
+      · have : (63 - 15 * 2 ^ 2) = 3 := by decide
+        rw [this, Bits.and3]; omega
+    · simp only [dec6, decBigTail2, if_true, enc6, encBigTail1, clearPad, padinfo2BitsBig]
+      bitsimp
+      refine ⟨?_, ?_⟩
+      · omega
+      · rw [and48 v2 h2]; omega
+  | [v1, v2, v3], h, _ => by
+    have h1 := h v1 (by simp); have h2 := h v2 (by simp); have h3 := h v3 (by simp)
+    cases big
+    · simp only [dec6, decLittleTail3, Bool.false_eq_true, if_false, enc6, encLittleTail2, clearPad, padinfo3BitsLittle]
+      bitsimp
+      refine ⟨?_, ?_, ?_⟩
+      · omega
+      · omega
+      · have : (63 - 3 * 2 ^ 4) = 15 := by decide
+        rw [this, Bits.and15]; omega
+    · simp only [dec6, decBigTail3, if_true, enc6, encBigTail2, clearPad, padinfo3BitsBig]
+      bitsimp
+      refine ⟨?_, ?_, ?_⟩
+      · omega
+      · omega
+      · rw [and60 v3 h3]; omega
+  | v1 :: v2 :: v3 :: v4 :: rest, h, hl => by
+    have h1 := h v1 (by simp); have h2 := h v2 (by simp); have h3 := h v3 (by simp); have h4 := h v4 (by simp)
+    have ih := enc6_dec6_eq_clearPad big rest (fun x hx => h x (by simp [hx])) (by simp at hl; omega)
+    cases big
+    · simp only [dec6, decLittleChunk, Bool.false_eq_true, if_false, List.cons_append, List.nil_append, enc6, encLittleChunk, clearPad, ih]
+      bitsimp
+      refine ⟨?_, ?_, ?_, ?_⟩ <;> omega
+    · simp only [dec6, decBigChunk, if_true, List.cons_append, List.nil_append, enc6, encBigChunk, clearPad, ih]
+      bitsimp
+      refine ⟨?_, ?_, ?_, ?_⟩ <;> omega
+
+end Lemmas.B64
+
+namespace Lemmas.B64
+open Py Gen.B64 Model.B64 Bits Spec.Rfc4648
+
+/-! ### RFC 4648 transcription: inverse laws (used for b64s / ab64 / b32 helpers) -/
+
+theorem ungroups64_groups64 : ∀ bs : Bytes, Bytes.WF bs → ungroups64 (groups64 bs) = some bs
+  | [], _ => rfl
+  | [x1], h => by
+    have h1 : x1 < 256 := h x1 (by simp)
+    simp only [groups64, ungroups64, Option.some.injEq, List.cons.injEq, and_true]; omega
+  | [x1, x2], h => by
+    have h1 : x1 < 256 := h x1 (by simp)
+    have h2 : x2 < 256 := h x2 (by simp)
+    simp only [groups64, ungroups64, Option.some.injEq, List.cons.injEq, and_true]
+    refine ⟨?_, ?_⟩ <;> omega
+  | x1 :: x2 :: x3 :: rest, h => by
+    have h1 : x1 < 256 := h x1 (by simp)
+    have h2 : x2 < 256 := h x2 (by simp)
+    have h3 : x3 < 256 := h x3 (by simp)
+    have ih := ungroups64_groups64 rest (fun b hb => h b (by simp [hb]))
+    simp only [groups64, List.cons_append, List.nil_append, ungroups64, ih, Option.map_some, Option.some.injEq,
+      List.cons.injEq, and_true]
+    refine ⟨?_, ?_, ?_⟩ <;> omega
+
+theorem groups64_lt64 : ∀ bs : Bytes, ∀ v ∈ groups64 bs, v < 64
+  | [], v, h => by simp [groups64] at h
+  | [x1], v, h => by
+    simp only [groups64, List.mem_cons, List.not_mem_nil, or_false] at h
+    rcases h with h | h <;> subst h <;> omega
+  | [x1, x2], v, h => by
+    simp only [groups64, List.mem_cons, List.not_mem_nil, or_false] at h
+    rcases h with h | h | h <;> subst h <;> omega
+  | x1 :: x2 :: x3 :: rest, v, h => by
+    simp only [groups64, List.cons_append, List.nil_append, List.mem_cons] at h
+    rcases h with h | h | h | h | h
+    · subst h; omega
+    · subst h; omega
+    · subst h; omega
+    · subst h; omega
+    · exact groups64_lt64 rest v h
+
+theorem groups64_length : ∀ bs : Bytes, (groups64 bs).length = (4 * bs.length + 2) / 3
+  | [] => rfl
+  | [_] => by simp [groups64]
+  | [_, _] => by simp [groups64]
+  | _ :: _ :: _ :: rest => by
+    simp only [groups64, List.cons_append, List.nil_append, List.length_cons, groups64_length rest]; omega
 
 end Lemmas.B64
